@@ -6,6 +6,7 @@
   (harness/c10), not a theorem.  Replica scoring is not modelled.
 -/
 import ClientGoVerif.Proofs.Retry
+import ClientGoVerif.Proofs.Selector
 namespace CGV.Props.C10
 open CGV CGV.Retry
 
@@ -180,3 +181,214 @@ example : (run (init cfgWrite) [.send 1 1 false false false 0 1 .regionerr "busy
 example : run (init cfgRead) [.send 1 1 false false false 0 1 .regionerr "maxts", .send 1 1 false false true 0 2 .ok "ok"] = none := by decide
 
 end CGV.Props.C10
+
+/-
+  Replica selector (Model/Selector.lean: the v2 selector of replica_selector.go without forwarding).  Theorems hold for
+  EVERY selector state and every store-cache observation; `next s t` = (choice set, selector after the observed choice `t`
+  was charged).  The tie (harness/c10 `sel`/`selend` lines) checks on every attempt of the real sender that its choice is in
+  the model's set and that flags and selector state agree.
+-/
+namespace CGV.Props.C10.Selector
+open CGV CGV.Selector
+
+/-- the chosen replica is a candidate: it exists, its attempts are not exhausted, its store is not known unreachable and
+    its store epoch is not stale — for every member of the choice set -/
+theorem chosen_is_candidate (s : Sel) (t i : Nat) (h : i ∈ (next s t).1) :
+    ∃ r, s.reps[i]? = some r ∧ r.attempts < maxAtt ∧ r.live ≠ 1 ∧ r.stale = false :=
+  next_ok s t i h
+
+/-- a leader read goes to the leader and nowhere else, unless the leader is exhausted / unreachable / timed out / answered
+    NotLeader / suspected, or a busy threshold diverts a read from a busy-looking leader -/
+theorem leader_read_goes_to_leader (s : Sel) (t : Nat) (hrl : s.readLeader = true) (hv : s.valid = true ∨ s.invRetry = true)
+    (hl : leaderStrat s = true) (hb : busyDivert s = false) : (next s t).1 = [s.leaderIdx] := by
+  rw [next_set]
+  have hc : (!s.invRetry && !s.valid) = false := by
+    rcases hv with h | h <;> simp [h]
+  rw [hc]
+  have h1 : leaderStrat (pre s) = true := hl
+  have h2 : busyDivert (pre s) = false := hb
+  simp only [Bool.false_eq_true, if_false, pathOf, hrl, if_true, nextLeaderPath, h1, h2]
+  rfl
+
+/-- a stale read whose first attempt failed (second call of `next`) goes to a leader that was not tried yet, as a plain
+    leader read: StaleRead and ReplicaRead are both cleared -/
+theorem stale_read_falls_back_to_leader (s : Sel) (t : Nat) (hrl : s.readLeader = false) (hst : s.stale = true)
+    (ha : s.selAtt = 1) (hv : s.valid = true) (hl : leaderStrat s = true) (h0 : leaderIs s (fun r => r.attempts < 1) = true) :
+    (next s t).1 = [s.leaderIdx] ∧ ((next s s.leaderIdx).2.sr = false ∧ (next s s.leaderIdx).2.rr = false) := by
+  have hvia : viaLeader (pre s) = true := by
+    have h1 : leaderStrat (pre s) = true := hl
+    have h2 : leaderIs (pre s) (fun r => r.attempts < 1) = true := h0
+    have h3 : (pre s).stale = true := hst
+    have h4 : (pre s).selAtt = 2 := by show s.selAtt + 1 = 2; omega
+    simp only [viaLeader, h1, h2, h3, h4, beq_self_eq_true, Bool.and_self]
+  have hp : ∀ t, pathOf s t = ([s.leaderIdx], { pre s with sr := false, rr := false }) := by
+    intro t
+    simp only [pathOf, hrl, Bool.false_eq_true, if_false, nextMixedPath, hvia, if_true]
+    rfl
+  have hc : (!s.invRetry && !s.valid) = false := by simp [hv]
+  constructor
+  · rw [next_set, hc, hp]; rfl
+  · have := charge_flags { pre s with sr := false, rr := false } s.leaderIdx
+    unfold next
+    rw [hc, hp]
+    simp only [Bool.false_eq_true, if_false, List.contains_cons, List.contains_nil, beq_self_eq_true, Bool.or_false, if_true]
+    obtain ⟨h1, h2, _⟩ := flags_with _ _ _ _ this
+    exact ⟨h2, h1⟩
+
+/-- outside leader reads a non-leader replica is tried at most twice, and a second time only if it answered
+    DataIsNotReady before (then `useReplica` decides whether it goes out as replica read instead of stale read) -/
+theorem not_ready_replica_at_most_twice (s : Sel) (t i : Nat) (hrl : s.readLeader = false) (hi : i ∈ (next s t).1)
+    (hne : i ≠ s.leaderIdx) :
+    ∃ r, s.reps[i]? = some r ∧ r.attempts < 2 ∧ (r.attempts = 1 → r.dataNotReady = true) := by
+  rw [next_set] at hi
+  split at hi
+  · simp at hi
+  · simp only [pathOf, hrl, Bool.false_eq_true, if_false] at hi
+    unfold nextMixedPath at hi
+    have hli : (pre s).leaderIdx = s.leaderIdx := rfl
+    have key : i ∈ (mixedPick (pre s)).1 → ∃ r, s.reps[i]? = some r ∧ r.attempts < 2 ∧ (r.attempts = 1 → r.dataNotReady = true) := by
+      intro hm
+      rcases mixedNext_mem (mixedStrat (pre s)) (pre s) i hm with h | ⟨r, hr, hc⟩
+      · exact absurd (h.trans hli) hne
+      · obtain ⟨h1, h2⟩ := isCand_attempts _ _ _ hc
+        exact ⟨r, hr, h1, fun h => (h2 h).1⟩
+    split at hi
+    · simp only [List.mem_singleton] at hi; exact absurd (hi.trans hli) hne
+    · split at hi
+      · simp at hi
+      · split at hi
+        · exact key hi
+        · exact key hi
+
+/-- FLAG DISCIPLINE at full strength: the flags of every request that leaves (`ReplicaRead`, `StaleRead`, busy threshold)
+    are the decision table `flagRule` applied to the flags the request came with -/
+theorem flag_table (s : Sel) (t : Nat) (h : (next s t).1.contains t = true) :
+    flagsOf (next s t).2 = applyRule s (flagRule s t) := by
+  have hset := next_set s t
+  unfold next at h ⊢
+  split
+  · rename_i hc; rw [if_pos hc] at h; simp at h
+  · rename_i hc
+    rw [if_neg hc] at h
+    split
+    · rename_i hc2
+      rw [charge_flags]
+      apply pathOf_flags
+      intro he; rw [he] at hc2; simp at hc2
+    · rename_i hc2
+      rw [if_neg hc2] at h
+      exact absurd h hc2
+
+/-- consequence for writes (not read-only, not a stale read): outside leader reads both flags are cleared, on a leader
+    read the selector does not touch them -/
+theorem write_flags (s : Sel) (t : Nat) (hw : s.readOnly = false) (hst : s.stale = false) (h : (next s t).1.contains t = true) :
+    (s.readLeader = false → (next s t).2.rr = false ∧ (next s t).2.sr = false) ∧
+    (s.readLeader = true → (next s t).2.rr = s.rr ∧ (next s t).2.sr = s.sr) := by
+  have ht := flag_table s t h
+  have hro : (pre s).readOnly = false := hw
+  constructor
+  · intro hrl
+    have hv : viaLeader (pre s) = false := by
+      have : (pre s).stale = false := hst
+      simp [viaLeader, this]
+    simp only [flagRule, hrl, Bool.false_eq_true, if_false, hv, hst, hw, Bool.false_and, applyRule] at ht
+    obtain ⟨h1, h2, _⟩ := flags_with _ _ _ _ ht
+    exact ⟨h1, h2⟩
+  · intro hrl
+    have hbd : busyDivert (pre s) = false := by simp [busyDivert, hro]
+    simp only [flagRule, hrl, if_true, hbd, Bool.false_eq_true, if_false, hro, Bool.and_false, Bool.false_and] at ht
+    have hk : flagsOf (next s t).2 = applyRule s .keep := by
+      split at ht <;> exact ht
+    obtain ⟨h1, h2, _⟩ := flags_with _ _ _ _ hk
+    exact ⟨h1, h2⟩
+
+/-- every replica's own attempt counter stays ≤ maxReplicaAttempt along every run (any choices out of the choice sets or
+    not, any answers, any store-cache observations), starting from fresh counters -/
+theorem attempts_never_exceed_max (s : Sel) (os : List Obs) (h0 : ∀ r ∈ s.reps, r.attempts = 0) :
+    ∀ r ∈ (runSel s os).reps, r.attempts ≤ maxAtt := by
+  have hi : AttInv s := by
+    intro a ha
+    obtain ⟨r, hr, rfl⟩ := List.mem_map.mp ha
+    rw [h0 r hr]; exact Nat.zero_le _
+  intro r hr
+  exact attInv_run os s hi r.attempts (List.mem_map.mpr ⟨r, hr, rfl⟩)
+
+/-- when no candidate is left the selector has invalidated the region (or kept it only because a replica timed out, for a
+    fast retry); in both cases the sender gets no RPC context and returns a region error -/
+theorem no_candidate_invalidates (s : Sel) (t : Nat) (h : (next s t).1 = []) :
+    (next s t).2.valid = false ∨ (next s t).2.reps.any (·.deadline) = true :=
+  next_empty s t h
+
+/-- an invalidated region is never sent to again (no loop), except for the single retry on the leader that
+    `onRegionNotFound` grants -/
+theorem invalid_region_no_choice (s : Sel) (t : Nat) (hv : s.valid = false) (hr : s.invRetry = false) : (next s t).1 = [] := by
+  rw [next_set]; simp [hv, hr]
+
+/-! the PRIORITIES of the score (they depend on the regenerated bit values: a changed weight re-opens these proofs) -/
+
+/-- a replica on a store that is not slow always outranks one on a slow store -/
+theorem score_prefers_not_slow (st : Strat) (la lb : Bool) (a b : Rep) (ha : a.slow = false) (hb : b.slow = true) :
+    score st lb b < score st la a := by
+  have key : ∀ tl pl lo lbl la lb l1 n1 f1 l2 n2 f2 : Bool,
+      scoreB tl pl lo lbl lb true l2 n2 f2 < scoreB tl pl lo lbl la false l1 n1 f1 := by decide
+  simp only [score, ha, hb]
+  exact key ..
+
+/-- among replicas of equal slowness, one whose labels match outranks one whose labels do not -/
+theorem score_prefers_label_match (st : Strat) (la lb : Bool) (a b : Rep) (hs : a.slow = b.slow) (hl : st.labels = true)
+    (ha : a.label = true) (hb : b.label = false) : score st lb b < score st la a := by
+  have key : ∀ tl pl lo la lb sl n1 f1 n2 f2 : Bool,
+      scoreB tl pl lo true lb sl false n2 f2 < scoreB tl pl lo true la sl true n1 f1 := by decide
+  simp only [score, hs, hl, ha, hb]
+  exact key ..
+
+/-- with equal slowness and label match, the leader outranks a follower when the mode prefers it (prefer-leader on a healthy
+    store, or mixed/prefer-leader with labels), and a follower outranks the leader in plain follower / learner reads -/
+theorem score_leader_preference (st : Strat) (a b : Rep) (hs : a.slow = false) (hs' : b.slow = false) (hl : a.label = b.label) :
+    ((st.preferLeader = true ∨ (st.tryLeader = true ∧ st.labels = true)) → score st false b < score st true a) ∧
+    ((st.preferLeader = false ∧ st.tryLeader = false ∧ st.learnerOnly = false) → a.attempts = 0 → b.attempts = 0 →
+      score st true a < score st false b) := by
+  have k1 : ∀ tl pl lo lbl l n1 f1 n2 f2 : Bool, (pl = true ∨ (tl = true ∧ lbl = true)) →
+      scoreB tl pl lo lbl false false l n2 f2 < scoreB tl pl lo lbl true false l n1 f1 := by decide
+  have k2 : ∀ lbl l n1 n2 : Bool,
+      scoreB false false false lbl true false l n1 true < scoreB false false false lbl false false l n2 true := by decide
+  constructor
+  · intro h
+    simp only [score, hs, hs', hl]
+    exact k1 _ _ _ _ _ _ _ _ _ h
+  · intro ⟨h1, h2, h3⟩ h4 h5
+    simp only [score, hs, hs', hl, h1, h2, h3, h4, h5, beq_self_eq_true]
+    exact k2 ..
+
+/-- all else equal, a replica that was not attempted yet outranks one that was -/
+theorem score_prefers_fresh (st : Strat) (l : Bool) (a b : Rep) (hs : a.slow = b.slow) (hl : a.label = b.label)
+    (hn : a.learner = b.learner) (ha : a.attempts = 0) (hb : b.attempts ≠ 0) : score st l b < score st l a := by
+  have key : ∀ tl pl lo lbl l sl lab n : Bool,
+      scoreB tl pl lo lbl l sl lab n false < scoreB tl pl lo lbl l sl lab n true := by decide
+  have hb' : (b.attempts == 0) = false := by simpa using hb
+  simp only [score, hs, hl, hn, ha, hb', beq_self_eq_true]
+  exact key ..
+
+/-! non-vacuity and the model/expectation disagreement on stale reads -/
+
+def rep0 : Rep := {}
+def selLeader : Sel := { reps := [rep0, rep0, rep0], readLeader := true, reqType := 0, stale := false, readOnly := true, rr := false, sr := false }
+def selStale : Sel := { reps := [rep0, rep0, rep0], readLeader := false, reqType := 2, stale := true, readOnly := true, rr := false, sr := true }
+
+example : (next selLeader 0).1 = [0] := by decide
+-- mixed read: the three replicas tie, the choice set is all of them; a follower read excludes the leader from the top score
+example : (next { selStale with stale := false, sr := false } 1).1 = [0, 1, 2] := by decide
+example : (next { selStale with stale := false, sr := false, reqType := 1, rr := true } 1).1 = [1, 2] := by decide
+-- stale read: first attempt on replica 1 as stale read, DataIsNotReady, second attempt on the leader as plain leader read
+example : (let s1 := stepSel selStale ⟨1, "dnr", false, [rep0, rep0, rep0]⟩
+           ((next s1 0).1, (next s1 0).2.sr, (next s1 0).2.rr)) = ([0], false, false) := by decide
+/-- DISAGREEMENT with the expectation "a stale read is never sent twice to the same not-ready replica": with an unreachable
+    leader (never attempted → `canSendReplicaRead` false) replica 1 gets the stale read again after both followers
+    answered DataIsNotReady -/
+example : (let down : List Rep := [{ live := 1 }, rep0, rep0]
+           let s1 := stepSel (refreshInputs selStale down) ⟨1, "dnr", false, down⟩
+           let s2 := stepSel s1 ⟨2, "dnr", false, down⟩
+           ((next s2 1).1, (next s2 1).2.sr, (next s2 1).2.rr)) = ([1, 2], true, false) := by decide
+
+end CGV.Props.C10.Selector
+
